@@ -3,6 +3,7 @@ package main
 import (
 	"fmt"
 	"go/token"
+	"go/types"
 	"sort"
 	"strings"
 
@@ -43,11 +44,13 @@ func idOfScalarCall(v ssa.Value) ssa.Value {
 }
 
 func runC02(c *Ctx, r *Run) {
+	checkResultsUsed(c, r, "USE-1", 100)
 	r.Rule("DEG-1", "dealing polynomials have degree = session threshold; NewPolynomial allocates degree+1 coefficients and samples coefficients 1..degree")
 	r.Rule("DEG-2", "receivers refuse committed polynomials whose degree differs from the session threshold; Exponent.Degree counts the omitted constant")
 	r.Rule("EVAL-P", "the sub-share sent to party j is the dealer's polynomial evaluated at j's scalar")
 	r.Rule("EVAL-S", "sub-shares are verified and kept at the receiver's own identifier, against the sender's polynomial")
 	r.Rule("TABLE-1", "public share table: entry j = (sum of all commitment polynomials)(j), stored under j")
+	r.Rule("TABLE-2", "in-place updates of a caller-provided share table range over the table itself, not over the session's party list")
 	r.Rule("SECRET-1", "the own secret share accumulates every received sub-share")
 	r.Rule("ID-1", "every polynomial evaluation point is party.ID.Scalar(group)")
 
@@ -410,6 +413,10 @@ func runC02(c *Ctx, r *Run) {
 		})
 		r.Check("TABLE-1", name+"|entry j = F(j)", c.Pos(fn.Pos()), entries > 0 && okAll, "each table entry is the summed polynomial evaluated at the scalar of the party it is stored under", bad+": parties' tables disagree with the shares their owners hold")
 	}
+	// TABLE-2: a table that enters the session from the caller (the previous epoch's table handed to a refresh) can hold
+	// entries for parties that are not in this session; its per-entry in-place updates walk the table itself so that all
+	// entries move to the new sharing together.
+	checkWholeTableUpdates(c, r, fns)
 	// SECRET-1
 	if fn := c.LookupMethod("protocols/cmp/keygen", "round4", "Finalize"); fn != nil {
 		ok := false
@@ -528,6 +535,7 @@ func runC02(c *Ctx, r *Run) {
 	r.Require("EVAL-S", 8)
 	r.Require("TABLE-1", 4)
 	r.Require("SECRET-1", 2)
+	r.Require("TABLE-2", 2)
 	r.Require("ID-1", 8)
 }
 
@@ -564,5 +572,126 @@ func dependsOnThresholdParam(fn *ssa.Function, v ssa.Value) bool {
 	if fn.Parent() != nil {
 		check(fn.Parent())
 	}
+	return ok
+}
+
+// rangeKeyOf: v is the key extracted from ranging over a map; returns the ranged map value.
+func rangeKeyOf(v ssa.Value) ssa.Value {
+	ex, ok := v.(*ssa.Extract)
+	if !ok || ex.Index != 1 {
+		return nil
+	}
+	nx, ok := ex.Tuple.(*ssa.Next)
+	if !ok {
+		return nil
+	}
+	rg, ok := nx.Iter.(*ssa.Range)
+	if !ok {
+		return nil
+	}
+	if _, isMap := rg.X.Type().Underlying().(*types.Map); !isMap {
+		return nil
+	}
+	return rg.X
+}
+
+func checkWholeTableUpdates(c *Ctx, r *Run, fns []*ssa.Function) {
+	// 1. which map fields of round structs are filled from a caller's map (key set not under the session's control)
+	external := map[*types.Var]string{}
+	for _, fn := range fns {
+		allInstrs(fn, func(in ssa.Instruction) {
+			st, ok := in.(*ssa.Store)
+			if !ok {
+				return
+			}
+			fa, ok := st.Addr.(*ssa.FieldAddr)
+			if !ok {
+				return
+			}
+			if _, isMap := st.Val.Type().Underlying().(*types.Map); !isMap {
+				return
+			}
+			mk, ok := st.Val.(*ssa.MakeMap)
+			if !ok {
+				return
+			}
+			for _, ref := range *mk.Referrers() {
+				mu, isMU := ref.(*ssa.MapUpdate)
+				if !isMU {
+					continue
+				}
+				src := rangeKeyOf(mu.Key)
+				if src == nil {
+					continue
+				}
+				root := src
+				if u, isU := root.(*ssa.UnOp); isU && u.Op == token.MUL {
+					root = u.X
+				}
+				if _, isFV := root.(*ssa.FreeVar); isFV || isParam(root) {
+					external[fieldVar(derefType(fa.X.Type()), fa.Field)] = c.FuncName(fn)
+				}
+			}
+		})
+	}
+	if len(external) == 0 {
+		r.Hold("TABLE-2", "no caller-provided table", "", "no round field is filled from a caller-provided map: nothing to check")
+		return
+	}
+	// 2. read-modify-write loops over those fields
+	for _, fn := range fns {
+		fn := fn
+		nth := 0
+		allInstrs(fn, func(in ssa.Instruction) {
+			mu, ok := in.(*ssa.MapUpdate)
+			if !ok || !blockInLoop(mu.Block()) {
+				return
+			}
+			ld, ok := mu.Map.(*ssa.UnOp)
+			if !ok {
+				return
+			}
+			fa, ok := ld.X.(*ssa.FieldAddr)
+			if !ok {
+				return
+			}
+			fv := fieldVar(derefType(fa.X.Type()), fa.Field)
+			from, isExt := external[fv]
+			if !isExt {
+				return
+			}
+			// the new value depends on the old entry
+			rmw := dependsOn(mu.Value, func(v ssa.Value) bool {
+				if lk, isL := v.(*ssa.Lookup); isL && sameErr(lk.X, mu.Map) {
+					return true
+				}
+				if ex, isE := v.(*ssa.Extract); isE && ex.Index == 2 {
+					if nx, isN := ex.Tuple.(*ssa.Next); isN {
+						if rg, isR := nx.Iter.(*ssa.Range); isR && sameErr(rg.X, mu.Map) {
+							return true
+						}
+					}
+				}
+				return false
+			})
+			if !rmw {
+				return
+			}
+			src := rangeKeyOf(mu.Key)
+			ok = src != nil && sameErr(src, mu.Map)
+			nth++
+			what := "a party list"
+			if src != nil {
+				what = path(src)
+			}
+			r.Check("TABLE-2", fmt.Sprintf("%s|%s|update #%d walks-the-table", c.FuncName(fn), fv.Name(), nth), c.Pos(mu.Pos()), ok,
+				"the in-place update of "+fv.Name()+" (filled from the caller's table in "+from+") ranges over the table itself",
+				"the in-place update of "+fv.Name()+" ranges over "+what+" instead of the table: "+fv.Name()+" is filled from the caller's table in "+from+" and can hold entries of parties outside this session, which stay on the old sharing while the others move — the reported table then mixes two sharings and threshold+1 of its entries no longer interpolate to the group key")
+		})
+	}
+}
+
+func isParam(v ssa.Value) bool {
+	_, ok := v.(*ssa.Parameter)
 	return ok
 }
